@@ -319,11 +319,21 @@ class Engine:
             r = self._check(cond.e)
         if r == z3.sat:
             rec.reached.append(label)
+            if len(rec.reach_models) < 8:
+                try:
+                    m = self.solver.model()
+                    vals = {}
+                    for name, var in self.inputs.items():
+                        v = m.eval(var, model_completion=True)
+                        vals[name] = v.as_long() if z3.is_int_value(v) else z3.is_true(v)
+                    rec.reach_models.append((label, vals))
+                except z3.Z3Exception:
+                    pass
 
 
 class PathRecord:
     __slots__ = ("n", "status", "detail", "claims", "reached", "observed_sym", "observed",
-                 "model", "feasible", "decisions", "want_model")
+                 "model", "feasible", "decisions", "want_model", "reach_models")
 
     def __init__(self, n):
         self.n = n
@@ -337,6 +347,7 @@ class PathRecord:
         self.feasible = None
         self.decisions = 0
         self.want_model = False
+        self.reach_models = []
 
 
 def _eval_obs(model, val):
